@@ -273,7 +273,9 @@ def converge(ctx, version, tags, faults, vcode):
     key = ("dup/" if any(k in ("dup-handle", "bad-handle") for k, _ in faults) else "nodup/") + "+".join(sorted(k for k, _ in faults))
     ctx.count("O2 convergence", (version, tuple(faults)), True)
     ctx.hist("O2 convergence", f"k={len(faults)}")
-    signal.alarm(30)
+    # a hang of pure-Python code burns CPU: count CPU time of this process (a loaded machine is not a hang), 10x wall backstop
+    signal.setitimer(signal.ITIMER_PROF, 30)
+    signal.setitimer(signal.ITIMER_REAL, 300)
     stage = "load"
     try:
         try:
@@ -322,11 +324,12 @@ def converge(ctx, version, tags, faults, vcode):
                 continue
             ctx.fail(f"audited-file/{key}/{kind}", f"{version} faults {key}: audited and saved file: {p}", rep)
     except _Timeout:
-        ctx.fail(f"hang/{key}", f"{version} faults {key}: load/audit/save did not finish in 30 s", rep)
+        ctx.fail(f"hang/{key}", f"{version} faults {key}: load/audit/save did not finish in 30 s CPU time", rep)
     except Exception as e:  # noqa
         ctx.fail(f"raised-in-{stage}/{type(e).__name__}/{key}", f"{version} faults {key}: {stage} raised {type(e).__name__}: {e}", rep)
     finally:
-        signal.alarm(0)
+        signal.setitimer(signal.ITIMER_PROF, 0)
+        signal.setitimer(signal.ITIMER_REAL, 0)
 
 
 VCODE = {"R12": "AC1009", "R2000": "AC1015", "R2004": "AC1018", "R2007": "AC1021", "R2010": "AC1024", "R2013": "AC1027", "R2018": "AC1032"}
@@ -334,6 +337,7 @@ VCODE = {"R12": "AC1009", "R2000": "AC1015", "R2004": "AC1018", "R2007": "AC1021
 
 def oracle(ctx):
     signal.signal(signal.SIGALRM, _on_alarm)
+    signal.signal(signal.SIGPROF, _on_alarm)
     rng = ctx.rng("oracle")
     for i in range(ctx.n(100, 1500)):
         no_false_positive(ctx, rng.randrange(1 << 30), (["R12"] + VERS)[i % 7])
@@ -363,6 +367,7 @@ def oracle(ctx):
 
 def replay(ctx, rep):
     signal.signal(signal.SIGALRM, _on_alarm)
+    signal.signal(signal.SIGPROF, _on_alarm)
     n0 = len(ctx.failures)
     files = dict(base_files(ctx))
     for f in rep.get("failing_inputs", []):
